@@ -303,9 +303,24 @@ def stepV (st : St) (step : Step) : St × Store × Out :=
                 preD12 := st.d12 } else st
   ({ st' with s := s' }, st.s, o)
 
+/-- The implementation's outcome token agrees with the model's outcome on success / failure.
+    Which error a refused call reports (closed / not found / …, and in which words) is not part
+    of C08–C10 (Proto.sameOutcome); the class is kept as a flag.  A model step whose guard is
+    false (`notEnabled`) corresponds to no outcome of the implementation at all. -/
+def outAgrees (post : List String) (o : Out) : Bool :=
+  o != .notEnabled && match post.head? with
+    | some t => sameOutcome t (outName o)
+    | none => false
+
+/-- flag part of the reply for an agreed outcome -/
+def outFlags (post : List String) : String :=
+  match post.head? with
+  | some t => if t == "ok" then "" else s!" failed=1 {classFlag t}"
+  | none => ""
+
 def simple (st : St) (step : Step) (post : List String) (what : String) : St × String :=
   let (st', _, o) := stepV st step
-  if post.head? == some (outName o) then (st', s!"ok {what}=1")
+  if outAgrees post o then (st', s!"ok {what}=1{outFlags post}")
   else (st', s!"DIFF {what} model={outName o} impl={post}")
 
 def op (st : St) (toks : List String) : St × String :=
@@ -313,7 +328,7 @@ def op (st : St) (toks : List String) : St × String :=
   match pre with
   | ["open"] =>
     let (st', _, o) := stepV st .reopen
-    if post.head? == some (outName o) then ({ st' with image := false, imgIntact := [], imgDamaged := false }, "ok open=1")
+    if outAgrees post o then ({ st' with image := false, imgIntact := [], imgDamaged := false }, s!"ok open=1{outFlags post}")
     else (st', s!"DIFF open model={outName o} impl={post}")
   | ["add", id, vd, tl, mc] =>
     match id.toNat?, vd.toNat?, tl.toNat?, mc.toNat? with
@@ -326,13 +341,15 @@ def op (st : St) (toks : List String) : St × String :=
     -- happen), then hybridSearchIndex.addInternal refuses before touching any sub-index
     match vd.toNat?, tl.toNat?, mc.toNat? with
     | some vd, some tl, some mc =>
+      -- (any error is a refusal: `err <class>`, the class being informational)
+      let flag := classFlag (post.getD 1 "unclassified")
       if !running st.s then
-        if post == ["closed"] then (st, "ok badadd=1") else (st, s!"DIFF badadd model=closed impl={post}")
+        if post.head? == some "err" then (st, s!"ok badadd=1 {flag}") else (st, s!"DIFF badadd model=closed impl={post}")
       else
         let d : Doc := ⟨0, vd, tl, mc⟩
         let rot := !hasRoom st.s.cfg.limit st.s.mts d
         let st' := if rot then (stepV st .rotate).1 else st
-        if post == ["err"] then (st', s!"ok badadd=1 rotated={if rot then 1 else 0}")
+        if post.head? == some "err" then (st', s!"ok badadd=1 rotated={if rot then 1 else 0} {flag}")
         else (st', s!"SPECFAIL rejected-add: the store acknowledged a document it must refuse impl={post}")
     | _, _, _ => (st, "BADOP badadd")
   | ["remove", id] =>
@@ -343,8 +360,8 @@ def op (st : St) (toks : List String) : St × String :=
     let before := st.s
     let mutIds := match st.s.mts.getLast? with | some m => m.info.map (·.id) | none => []
     let (st', _, o) := stepV st .flush
-    if post.head? != some (outName o) then (st', s!"DIFF flush model={outName o} impl={post}") else
-    if o != .ok then (st', "ok flusherr=1") else
+    if !outAgrees post o then (st', s!"DIFF flush model={outName o} impl={post}") else
+    if o != .ok then (st', s!"ok flusherr=1{outFlags post}") else
     -- segment ids handed out by this flush, as the implementation reports them
     let newIds := (st'.s.gh.allocated.take (st'.s.gh.allocated.length - before.gh.allocated.length)).reverse
     let implIds := match kvOf "segs" post with | some t => (parseIds t).getD [] | none => []
@@ -393,8 +410,10 @@ def op (st : St) (toks : List String) : St × String :=
       let tl := if turns == "-" then [] else turns.splitOn ","
       match post with
       | ["err", e] =>
+        -- the search failed: accepted exactly when the model's search fails too (closed store,
+        -- modality not configured), whatever the error says
         let (_, o, _) := execSearch st.s q []
-        if outName o == e then (st, "ok searcherr=1")
+        if outName o != "ok" && o != .notEnabled then (st, s!"ok searcherr=1 {classFlag e}")
         else (st, s!"SPECFAIL search-error impl=err:{e} model={outName o}")
       | "ok" :: rest =>
         match (match rest with | [x] => parseIds x | [] => some [] | _ => none) with
@@ -527,10 +546,8 @@ def op (st : St) (toks : List String) : St × String :=
               | none => false
           let st' := { st with s := s', image := true, imgIntact := intact, imgDamaged := damaged,
                                d12 := st.preD12 }
-          if post.head? == some (outName o) then
-            if o == .ok then (st', s!"ok image=1 k={k} partial={if damaged then 1 else 0} intact={intact.length} last_trailer_rejected={if lastTrailer then 1 else 0}")
-            else (st', s!"SPECFAIL reopen-after-crash failed: {outName o}")
-          else if post.head? != some "ok" then (st', s!"SPECFAIL reopen-after-crash impl={post} model={outName o}")
+          if post.head? != some "ok" then (st', s!"SPECFAIL reopen-after-crash impl={post} model={outName o}")
+          else if o == .ok then (st', s!"ok image=1 k={k} partial={if damaged then 1 else 0} intact={intact.length} last_trailer_rejected={if lastTrailer then 1 else 0}")
           else (st', s!"DIFF image open model={outName o} impl={post}")
     | _, _ => (st, "BADOP image")
   | _ => (st, "BADOP unknown")
